@@ -56,6 +56,15 @@ int main(int argc,char** argv){
   { P p(3,2,2,2,0.5); double s0=p.sc(1,1), r0=p.rho(2,1,1); p.Evolve(0.25); p.Evolve(0.5);   // no numerics: state bit-identical, clock advances, PreDerive(new t)
     if(p.sc(1,1)!=s0||p.rho(2,1,1)!=r0) fail("state changed with all numerical terms disabled");
     if(p.Get_t()!=1.25) fail("clock without numerics is "+std::to_string(p.Get_t())); if(p.npre!=2||p.lastpre!=1.25) fail("PreDerive not called once per Evolve with the new time"); }
+  for(int k=0;k<5;k++){   // switching one term on and off again must not hide the others from Evolve (cached aggregate switch)
+    P p(3,2,2,2,0.0); bool useGamma=(k==4);
+    if(useGamma) p.Set_GammaScalarTerms(true); else p.Set_OtherScalarTerms(true);
+    switch(k){ case 0: p.Set_CoherentRhoTerms(true); p.Set_CoherentRhoTerms(false); break; case 1: p.Set_NonCoherentRhoTerms(true); p.Set_NonCoherentRhoTerms(false); break;
+      case 2: p.Set_OtherRhoTerms(true); p.Set_OtherRhoTerms(false); break; case 3: p.Set_GammaScalarTerms(true); p.Set_GammaScalarTerms(false); break;
+      default: p.Set_OtherScalarTerms(true); p.Set_OtherScalarTerms(false); }
+    double s0=p.sc(1,1); p.Evolve(1.0);
+    double ex=useGamma? s0*std::exp(-p.g(1,1)) : s0+p.c(1,1);
+    if(std::abs(p.sc(1,1)-ex)>1e-6) fail("after toggling switch #"+std::to_string(k)+" the remaining term is not integrated: scalar = "+std::to_string(p.sc(1,1))+" expected "+std::to_string(ex)); }
   std::printf("solver scenario=%s -> %s\n",w.has("scenario")?w.s("scenario").c_str():"?",bad?"REPRODUCED":"holds");
   return bad?1:0;
 }
